@@ -1032,7 +1032,7 @@ def check_C20(ctx):
 
 # ----------------------------------------------------------------------------- C15: configuration parsing, init / fini
 ENV_TOK = {'N': '\n', 'T': '\t'}
-IF_EVENTS = ('Reset', 'U_Request', 'InitCas', 'InitReally', 'WorkerStart', 'InitDone', 'U_NumWorkers', 'U_WorkerNum',
+IF_EVENTS = ('Reset', 'U_KeysExhausted', 'U_Request', 'InitCas', 'InitReally', 'WorkerStart', 'InitDone', 'U_NumWorkers', 'U_WorkerNum',
              'FiniBegin', 'WorkerExit', 'FiniDone')
 
 
@@ -1112,7 +1112,15 @@ def check_C15(ctx):
     jobs = []
     nhist = 12 if ctx.quick else 60
     for h in range(nhist):
-        gens = ['a:%d' % rng.choice((1, 1, 2, 3, 4, 5, 8, 16, 32, 64)) for _ in range(rng.randint(1, 6 if ctx.quick else 30))]
+        gens = []
+        for _ in range(rng.randint(1, 6 if ctx.quick else 30)):
+            n_ = rng.choice((1, 1, 2, 3, 4, 5, 8, 16, 32, 64))
+            if rng.random() < 0.35:      # process-wide attributes through the NULL-attribute interface, other settings after the worker count
+                gens.append('g:%d:%s' % (n_, ''.join(rng.sample('1234', rng.randint(0, 4)))))
+            else:
+                gens.append('a:%d' % n_)
+            if rng.random() < 0.3:
+                gens[-1] += 'k'          # key exhaustion in this generation
         jobs.append((gens, {}))
     nenv = 40 if ctx.quick else 400
     interesting = [c for c in cases if c[0] and '\x00' not in c[0]]
